@@ -50,6 +50,11 @@ def run_one(m):
     try:
         shutil.copytree(SRC, root)
         edits = m.get('edits') or [m]
+        if m.get('patch'):
+            r = subprocess.run(['patch', '-p3', '-s', '-d', root, '-i', m['patch']], capture_output=True, text=True)
+            if r.returncode:
+                return m, 'STALE', f'patch {m["patch"]} does not apply: {(r.stdout + r.stderr)[-200:]}'
+            edits = []
         for e in edits:
             err = apply_edit(root, dict(e, file=e.get('file', m.get('file'))))
             if err:
